@@ -4,6 +4,9 @@ findings with their exact failure signature.  Root-cause text comes from the rul
 import json, sys, re
 prop = sys.argv[1]
 RULES = [
+    (r"KeyError: 'type'", "xml:space has an anonymous simple type: XSDAttribute.type_ raises KeyError('type') for every type using the text-formatting group"),
+    (r"'NoneType' object has no attribute 'get_attributes'", "xlink:* attribute references are never resolved (NotImplementedError(ref) is built but not raised): the attribute table of link / opus / part-link types cannot be used"),
+    (r'AnyURI', "xs:anyURI has no simple-type class: XSDAttribute.type_ raises NameError for the image attributes (source)"),
     (r'tail-text', "text that follows a child element (ElementTree 'tail') is dropped silently by the parser: neither kept nor reported"),
     (r'exterior-whitespace', "the parser strips leading/trailing whitespace of element text also for whitespace-preserving types (xs:string): '  hi  ' comes back as 'hi'"),
     (r'xml:lang|xml:space|lyric-language|undeclared', "attributes the schema references as xml:lang / xml:space are handled under the un-prefixed names 'lang' / 'space' (accepted, serialised without the xml: prefix; the qualified names are rejected; lyric-language loses use=required; xml:space has no resolvable type: KeyError('type'))"),
@@ -31,6 +34,7 @@ for o in ev['coverage']['violations_list']:
     if what is None:
         print('UNMATCHED', o['oid'], o.get('detail')); continue
     oid = re.sub(r'@(warmed|pristine|warmed-reverse)$', '', o['oid'])
+    if prop == 'C03': oid = o['oid']
     if any(e['property'] == prop and e['obligation'] == oid and e.get('signature') == o.get('detail') for e in kf['findings']):
         continue
     kf['findings'].append(dict(property=prop, obligation=oid, signature=o.get('detail'), what=oid.split('/', 1)[1] + ': ' + what)); n += 1
